@@ -49,7 +49,8 @@ def gen_cases(seed, tier):
         elif avg == "unichain" and kind in ("vi", "per"):
             g = 1.0 if rng.random() < 0.6 else float(rng.choice([0.5, 0.9]))
         else:
-            g = float(rng.choice([0.3, 0.5, 0.8, 0.9, 0.95]))
+            # incl. discount factors a hair below 1 (the threshold eps*(1-g)/g is then tiny: no early stop)
+            g = float(rng.choice([0.3, 0.5, 0.8, 0.9, 0.95, 0.99999, 0.999995, 1 - 1e-7, 1 - 1e-9]))
         period = int(rng.integers(2, 5)) if (kind == "per" and g == 1.0) else int(rng.integers(1, 5))
         eps = float(spec["scale"] * 10.0 ** rng.uniform(-3, 1))
         ncalls = int(rng.integers(1, 7))
